@@ -22,6 +22,8 @@ type c28Case struct {
 	Name  string   `json:"name,omitempty"`
 	Terms []string `json:"terms,omitempty"`
 	Nts   []string `json:"nts,omitempty"`
+	// IDs gives some terminals an explicit identifier: `name (ID): /re/`.
+	IDs map[int]string `json:"ids,omitempty"`
 }
 
 var c28Ident = regexp.MustCompile(`^[A-Za-z_][A-Za-z0-9_]*$`)
@@ -118,6 +120,29 @@ func c28Gen(t *rapid.T) c28Case {
 		seen[name] = true
 		c.Terms = append(c.Terms, name)
 	}
+	// explicit identifiers: the one another terminal gets automatically (a collision the compiler
+	// has to report), the same in another case, or a fresh one
+	for i := range c.Terms {
+		if i == 0 || rapid.IntRange(0, 3).Draw(t, "explicitID") != 0 {
+			continue
+		}
+		other := ident.Produce(c.Terms[rapid.IntRange(0, i-1).Draw(t, "idOf")], ident.UpperCase)
+		var id string
+		switch rapid.IntRange(0, 2).Draw(t, "idKind") {
+		case 0:
+			id = other
+		case 1:
+			id = strings.ToLower(other)
+		default:
+			id = fmt.Sprintf("ID%d", i)
+		}
+		if c28Ident.MatchString(id) && !c28Reserved[id] {
+			if c.IDs == nil {
+				c.IDs = map[int]string{}
+			}
+			c.IDs[i] = id
+		}
+	}
 	if len(c.Terms) == 0 {
 		c.Terms = []string{"tok"}
 		seen["tok"] = true
@@ -193,6 +218,10 @@ func c28Grammar(c c28Case) string {
 	var sb strings.Builder
 	sb.WriteString("language g(go);\n\n:: lexer\n\n")
 	for i, tname := range c.Terms {
+		if id, ok := c.IDs[i]; ok {
+			fmt.Fprintf(&sb, "%s (%s): /%c/\n", tname, id, 'a'+i)
+			continue
+		}
 		fmt.Fprintf(&sb, "%s: /%c/\n", tname, 'a'+i)
 	}
 	sb.WriteString("\n:: parser\n\n")
